@@ -568,6 +568,8 @@ class Exec:
         if self.c.py_mode:
             v = self.make_input(name, self.c.inputs.get(name, "obj"))
             self.vars[name] = v
+            if name in self.c.inputs:
+                self.entry_vars.setdefault(name, v)
             return v
         raise Undecidable(f"unknown name {name}")
 
@@ -1290,6 +1292,10 @@ class Exec:
         about the result (an assumed contract of a dependency, listed in the evidence)."""
         args = [self.ev(a) for a in n.args]
         kws = {k.arg: self.ev(k.value) for k in n.keywords if k.arg}
+        outv = kws.get("out")
+        if outv is not None and outv.k == "arr" and outv.t.id in self.heap:
+            # NumPy `out=`: the callee writes its result into that array - contents unknown from here on
+            self.heap[outv.t.id] = z3.Const(f"{outv.t.name}__out{next(self.n)}", outv.t.sort)
         if fn in self.c.count_calls:
             gv = "#" + fn
             cur = self.vars.get(gv) or Val("int", z3.IntVal(0), PYINT)
@@ -2604,6 +2610,27 @@ class Exec:
                     if (a.id, "nan") in self.entry_heap and (a.id, "nan") in self.heap:
                         same = z3.And(same, self.heap[(a.id, "nan")] == self.entry_heap[(a.id, "nan")])
                     self.oblige("frame", f"array parameter {pn} is not written (not in modifies)", same)
+            # Python regions: the same for every array the contract declares as an input (parameters and self.<field>)
+            if self.c.py_mode and "frame" in self.c.checks:
+                for pn in sorted(self.c.inputs):
+                    pv = self.entry_vars.get(pn)
+                    if pv is None or pv.k != "arr" or pn in (self.c.modifies or ()):
+                        continue
+                    a = pv.t
+                    if a.id not in self.entry_heap or a.id not in self.heap:
+                        continue
+                    same = self.heap[a.id] == self.entry_heap[a.id]
+                    if z3.is_true(z3.simplify(same)):
+                        continue        # never stored to on this path: no obligation (keeps the counts of untouched contracts)
+                    # pointwise over the extents (array equality between a lambda and a constant is hard for the solver and
+                    # is not expanded by the finite-scope search)
+                    qs = [z3.Int(f"fr{d}!{next(self.n)}") for d in range(a.ndim)]
+                    new_t, old_t = self.heap[a.id], self.entry_heap[a.id]
+                    for q in qs:
+                        new_t, old_t = z3.Select(new_t, q), z3.Select(old_t, q)
+                    rng = z3.And(*[z3.And(q >= 0, q < sh) for q, sh in zip(qs, a.shape)])
+                    same = z3.ForAll(qs, z3.Implies(rng, new_t == old_t))
+                    self.oblige("frame", f"input array {pn} is not written (not in modifies)", same)
             self.vars, self.heap, self.guard = sv, sh, sg
         for k in self.c.asserts:
             if k.startswith("store:"):
